@@ -325,6 +325,7 @@ pub struct Interp {
 	pub files: RefCell<HashMap<String, Vec<u8>>>,
 	pub file_cache: RefCell<HashMap<String, Th>>,
 	pub std: RefCell<Option<V>>,
+	pub same_reference_equal: Cell<bool>,
 }
 
 fn s(x: &str) -> V {
@@ -380,6 +381,7 @@ impl Interp {
 			files: RefCell::new(HashMap::new()),
 			file_cache: RefCell::new(HashMap::new()),
 			std: RefCell::new(None),
+			same_reference_equal: Cell::new(false),
 		}
 	}
 	fn tick(&self) -> R<()> {
@@ -1004,6 +1006,15 @@ impl Interp {
 
 	pub fn equals(&self, a: &V, b: &V) -> R<bool> {
 		self.tick()?;
+		// deviation model of the recorded finding C02-same-reference-equality-shortcut (off unless a check asks for it
+		// to explain an observed difference): one and the same array / object value is equal to itself unread
+		if self.same_reference_equal.get() {
+			match (a, b) {
+				(V::Arr(x), V::Arr(y)) if Rc::ptr_eq(x, y) => return Ok(true),
+				(V::Obj(x), V::Obj(y)) if Rc::ptr_eq(x, y) => return Ok(true),
+				_ => {}
+			}
+		}
 		Ok(match (a, b) {
 			(V::Null, V::Null) => true,
 			(V::Bool(x), V::Bool(y)) => x == y,
